@@ -3,7 +3,7 @@ import ast
 import pathlib
 
 from ..engine import sym
-from ..engine.interp import Rec, Cell
+from ..engine.interp import PyFn, Rec, Cell
 from ..engine.loader import Unknown, norm_text
 from ..engine.sym import is_sym
 from ..rules import guards
@@ -114,6 +114,26 @@ def rule_R1(ck):
                                  construct=f"{tag} default")
                 elif p.kind == "raise" and (default is not None or p.value.name != "RecoverableError"):
                     ck.violation(where, f"{tag}: refused values must raise RecoverableError (no default) or return the default; got {p.value!r}", construct=f"{tag} refusal")
+    # an operand whose value is still a deferred object (a promise that is settled by now, a thunk) is evaluated, not refused
+    I = eager_interp(repo, opaque_get_as_int=False)
+    I.summaries = {"reports::emit_report": I.summaries["reports::emit_report"]}
+
+    def thunk_d():
+        sh = Shapes(I)
+        bt = I.builtin_types["int"]
+        pr = I.instantiate(I.module_get("deferred", "Promise"), [bt, "p"], {})
+        I.call_method(pr, "settle", [5])
+        th = I.instantiate(I.module_get("deferred", "Deferred"), [bt, PyFn(lambda I_, a, k: 200)], {})
+        out = []
+        for v in (pr, th):
+            tok = sh.xexpr(v, "v")
+            out.append(I.call(I.module_get("metacommand_impl", "get_as_int"), [{"emit_address": 0}, "value", tok, tok], {"bitness": 8, "unsigned": False}))
+        return out
+    ps = I.explore(thunk_d)
+    ck.instance("deferred-operand", {"get_as_int of a settled promise (5) and a thunk (200), 8 bits": repr(ps[0].value) if ps else None}, fn=where)
+    if len(ps) != 1 or ps[0].kind != "return" or ps[0].value != [5, 200] or ps[0].reported():
+        ck.violation(where, f"get_as_int on operands whose values are deferred objects (a promise settled to 5, a thunk giving 200; 8 bits) gives {ps[0].value if ps else None!r} with diagnostics "
+                            f"{[e[2] for p_ in ps for e in p_.reported()]}; expected [5, 200]: a forward reference must be evaluated before its type and range are judged", construct="get_as_int does not wait")
     # a value that is not an integer is an error
     I = eager_interp(repo, opaque_get_as_int=False)
 
